@@ -13,6 +13,7 @@ import NngModel.Proofs.IdHash
 import NngModel.Proofs.Probe
 import NngModel.Proofs.IdVisit
 import NngModel.Proofs.ProbeAll
+import NngModel.Proofs.IdFini
 import NngModel.Generated.Base
 import NngModel.Generated.C18
 namespace Nng.C18
@@ -447,6 +448,19 @@ theorem idmap_refines_finite_map (lo hi : Nat) (random : Bool) (ops : List (IdHa
     idModelSafe (IdHash.mapInit lo hi random) ops = true ∧
     IdHash.Rep (idModelRun (IdHash.mapInit lo hi random) ops) (idSpecRun (IdSpec.init lo hi random) ops) :=
   idmap_run_refines ops _ _ (IdHash.mapInit_rep lo hi random hhi hlh) hops
+
+/-- nni_id_map_fini (the library finalises its registered maps at nng_fini and uses the same objects again after the next
+    nng_init): the finite map is emptied and THE ID CURSOR SURVIVES - identifiers are not reissued across a fini/init
+    cycle before the range wraps - and every run of operations after it refines the finite map again -/
+theorem idmap_fini_keeps_cursor {m : IdHash.IdMap} {s : IdSpec} (h : IdHash.Rep m s) (ops : List (IdHash.IOp × Bool))
+    (hops : IdOpsOk ops) :
+    (IdHash.mapFini m).dynVal = m.dynVal ∧ s.fini.cur = s.cur ∧ s.fini.m = [] ∧
+    IdHash.Rep (IdHash.mapFini m) s.fini ∧
+    idModelObs (IdHash.mapFini m) ops = idSpecObs s.fini ops ∧ idModelSafe (IdHash.mapFini m) ops = true ∧
+    IdHash.Rep (idModelRun (IdHash.mapFini m) ops) (idSpecRun s.fini ops) := by
+  have hr := IdHash.mapFini_rep h
+  obtain ⟨a, b, c⟩ := idmap_run_refines ops _ _ hr hops
+  exact ⟨(IdHash.mapFini_fields m).1, rfl, rfl, hr, a, b, c⟩
 
 /-- the error numbers used by the models are those of include/nng/nng.h (extracted) -/
 theorem err_numbers :
